@@ -305,7 +305,42 @@ def ref_history(p, shape, hist):
 # ------------------------------------------------------------------------------------------------
 # get_refs
 
-def getrefs_history(p, hist):
+TABLE_VARIANTS = {'plain': {}, 'abstract': {'abstract': True}, 'aliased': {'alias': 'tt', 'schema': 's', 'note': 'n', 'header_color': '#fff'}}
+
+
+def getrefs_join_table(p):
+    """the join table a <> reference produces is never in a database: it and its columns must refuse get_refs()"""
+    from pydbml import Database
+    from pydbml.classes import Column, Table, Reference
+    for attached in (False, True):
+        a, b = Table('a'), Table('b')
+        ac, bc = Column('id', 'int', pk=True), Column('id', 'int', pk=True)
+        a.add_column(ac)
+        b.add_column(bc)
+        r = Reference('<>', ac, bc)
+        if attached:
+            db = Database()
+            db.add(a)
+            db.add(b)
+            db.add(r)
+        j = r.join_table
+        p['evaluations'] += 1
+        p['nontrivial'].add(digest(['getrefs-join', attached]))
+        for label, fn in [('join_table.get_refs', j.get_refs)] + [(f'join_table.{c.name}.get_refs', c.get_refs) for c in j.columns]:
+            try:
+                v = fn()
+                got = 'list' if isinstance(v, list) else type(v).__name__
+            except Exception as e:
+                got = type(e).__name__
+            if got not in ('UnknownDatabaseError', 'TableNotFoundError'):
+                p['violations'].append(violation(PID, 'get-refs-guard', {'mode': 'getrefs-join', 'attached': attached, 'what': label},
+                                                 expected=['TableNotFoundError', 'UnknownDatabaseError'], observed=got,
+                                                 detail=f'{label}() of the join table of a <> reference ({"attached" if attached else "detached"} reference) gave {got}'))
+            else:
+                p['outcomes']['getrefs-join/refused'] += 1
+
+
+def getrefs_history(p, hist, variant='plain'):
     from pydbml import Database
     from pydbml.classes import Column, Table, Reference
     db = Database()
@@ -313,13 +348,13 @@ def getrefs_history(p, hist):
     oc = Column('id', 'int')
     other.add_column(oc)
     db.add(other)
-    t = Table('t')
+    t = Table('t', **TABLE_VARIANTS[variant])
     c = Column('c', 'int')
     t.add_column(c)
     loose = Column('loose', 'int')
     attached = False
     col_in_table = True
-    case = {'mode': 'getrefs', 'history': list(hist)}
+    case = {'mode': 'getrefs', 'history': list(hist), 'variant': variant}
     r = Reference('>', c, oc)
     for n, op in enumerate(('init',) + tuple(hist)):
         if op == 'add':
@@ -360,7 +395,7 @@ def getrefs_history(p, hist):
         for label, allowed in exp.items():
             if obs[label] not in allowed:
                 p['violations'].append(violation(PID, 'get-refs-guard', dict(case, what=label, step=n), expected=sorted(allowed), observed=obs[label],
-                                                 detail=f'after {list(hist[:n])}: {label}() gave {obs[label]}, expected {sorted(allowed)}'))
+                                                 detail=f'{variant} table, after {list(hist[:n])}: {label}() gave {obs[label]}, expected {sorted(allowed)}'))
                 return True
     return True
 
@@ -434,13 +469,15 @@ def work(unit):
     else:
         for d in range(0, depth + 1):
             for hist in itertools.product(('add', 'delete', 'dropcol', 'addcol'), repeat=d):
-                if getrefs_history(p, hist):
-                    p['states'] += 1
-                    p['transitions'] += d
-                    p['traces'] += 1
-                    p['evaluations'] += 1
-                    p['nontrivial'].add(digest(['getrefs', hist]))
-                    p['outcomes']['getrefs/executed'] += 1
+                for variant in TABLE_VARIANTS:
+                    if getrefs_history(p, hist, variant):
+                        p['states'] += 1
+                        p['transitions'] += d
+                        p['traces'] += 1
+                        p['evaluations'] += 1
+                        p['nontrivial'].add(digest(['getrefs', hist, variant]))
+                        p['outcomes']['getrefs/executed'] += 1
+        getrefs_join_table(p)
         p['samples'].append({'mode': 'getrefs', 'history': list(hist)})
     return p
 
@@ -457,6 +494,8 @@ def replay(case):
     elif case['mode'] == 'refhist':
         k, i, s1, s2 = case['shape']
         ref_history(p, (k, i, tuple(s1), tuple(s2)), tuple(tuple(o) for o in case['history']))
+    elif case['mode'] == 'getrefs-join':
+        getrefs_join_table(p)
     else:
-        getrefs_history(p, tuple(case['history']))
+        getrefs_history(p, tuple(case['history']), case.get('variant', 'plain'))
     return p['violations']
